@@ -97,7 +97,7 @@ namespace xsimd
         template <class A, class T>
         XSIMD_INLINE batch_bool<T, A> is_even(batch<T, A> const& self, requires_arch<generic>) noexcept
         {
-            return is_flint(self * T(0.5));
+            return is_flint(self) && is_flint(self * T(0.5));
         }
 
         // is_flint
@@ -112,7 +112,7 @@ namespace xsimd
         template <class A, class T>
         XSIMD_INLINE batch_bool<T, A> is_odd(batch<T, A> const& self, requires_arch<generic>) noexcept
         {
-            return is_even(self - T(1.));
+            return is_flint(self) && !is_even(self);
         }
 
         // isinf
